@@ -2,7 +2,6 @@ package main
 
 import (
 	"verif/harness/o4pair"
-	"verif/harness/vlib"
 )
 
 // tie: per connection, (1) a shadow real decoder per direction that tells the chunkers where
@@ -15,15 +14,6 @@ type tie struct {
 	shadow [2]*o4pair.Shadow
 	base   [2]int // stream offset of the first byte not yet handed to the shadow's caller
 	model  *o4pair.Model
-}
-
-func startTieDriver(r *vlib.Run) *vlib.Driver { return o4pair.StartModelDriver(r) }
-
-func tieNote(x *runner) interface{} {
-	if x.d == nil {
-		return "model driver o4data not available: S oracle only"
-	}
-	return map[string]int{"quiescence_points_compared_with_model": x.tieOK}
 }
 
 func newTie(x *runner, pr *o4pair.Pair) *tie {
@@ -74,8 +64,7 @@ func (t *tie) afterDrain(dir int, where string, blocked bool) *verdict {
 	if sig, desc := t.model.Compare(dir, rd, blocked); sig != "" {
 		return &verdict{"tie-" + sig, where + " " + o4pair.DirName(dir) + ": " + desc}
 	}
-	t.x.tieOK++
-	t.x.r.Validated(1)
+	t.x.tieOK += t.model.Points()
 	return nil
 }
 
